@@ -42,7 +42,7 @@ def r_deser_id(ck: Checker) -> None:
             tgt = c.args[0].value.id
         if tgt is not None and tgt in looked_up:
             ck.violation("R-DESER-ID", f, c, "deserialization removes from the registry only what it registered itself (the provisional entry of the node it builds)",
-                         construct=f"_deserialize: {norm(c)[:50]} unregisters {tgt}, a node found in the registry (registered before this call): live nodes are evicted when loading fails")
+                         positive=True, construct=f"_deserialize: {norm(c)[:50]} unregisters {tgt}, a node found in the registry (registered before this call): live nodes are evicted when loading fails")
             return
     leaves = decision_tree(body, try_as_body=True, resolve=True)
     what0 = "deserialization consults the registry under the serialized id first and returns a hit as is"
@@ -259,7 +259,7 @@ def r_fmt_pair(ck: Checker) -> None:
                 if k.arg in table and isinstance(k.value, ast.Constant) and k.value.value in table[k.arg]:
                     continue
                 if k.arg == "use_list" and is_const(k.value, False):
-                    ck.violation("R-FMT-PAIR", g, c, what, construct="from_msgpck: unpackb(use_list=False) turns every serialized list into a tuple (list values of untyped properties come back as tuples)")
+                    ck.violation("R-FMT-PAIR", g, c, what, positive=True, construct="from_msgpck: unpackb(use_list=False) turns every serialized list into a tuple (list values of untyped properties come back as tuples)")
                     break
                 if k.arg in ("object_hook", "object_pairs_hook", "list_hook", "ext_hook", "default"):
                     raise Unsupported(f"msgpack.{side}({k.arg}=...) installs a conversion hook", c)
